@@ -15,6 +15,7 @@ import BpModel.Model.Lint
 import BpModel.Model.Lexer
 import BpModel.Model.Lex
 import BpModel.Model.Parse
+import BpModel.Model.JsonText
 /-!
 # bpdrv — line-protocol driver for the executable model
 
@@ -234,6 +235,26 @@ def tokJson (t : Lex.Token) : Json :=
 def fileOfText (name text : String) : Front.File :=
   let p := Parse.parseText text.toList
   { name := name, proto := p.proto, items := p.items }
+
+/-- order-preserving wire form of a JSON value: numbers, booleans, arrays, and `{"o": [[key, value], ...]}` -/
+partial def jtOfJson (j : Json) : Except String JsonText.JT :=
+  match j with
+  | .bool b => .ok (.bool b)
+  | .num _ => match j.getInt? with | .ok i => .ok (.num i) | .error e => .error e
+  | .arr a => do .ok (.arr (← a.toList.mapM jtOfJson))
+  | _ => do
+    let kvs ← j.getObjValAs? (Array Json) "o"
+    let kvs ← kvs.toList.mapM fun kv => do
+      let a ← kv.getArr?
+      if a.size ≠ 2 then throw "bad member"
+      pure ((← a[0]!.getStr?).toList, (← jtOfJson a[1]!))
+    .ok (.obj kvs)
+
+partial def jtToJson : JsonText.JT → Json
+  | .num x => (x : Int)
+  | .bool b => b
+  | .arr xs => .arr (xs.map jtToJson).toArray
+  | .obj kvs => Json.mkObj [("o", .arr (kvs.map fun (k, v) => Json.arr #[Json.str (String.ofList k), jtToJson v]).toArray)]
 
 def handle (op : String) (req : Json) : Except String Json := do
   match op with
@@ -486,6 +507,15 @@ def handle (op : String) (req : Json) : Except String Json := do
     | .ok (.proto _ _ mem) => pure (Json.mkObj [("ok", .arr (entMsgs "" mem).toArray)])
     | .ok _ => pure (Json.mkObj [("ok", .arr #[])])
     | .error d => pure (Json.mkObj [("diag", Json.mkObj [("rule", d.rule), ("file", d.file), ("line", d.line)])])
+  | "jsontext.render" =>
+    let j ← jtOfJson (← req.getObjVal? "value")
+    let py := match req.getObjValAs? Bool "py" with | .ok b => b | .error _ => false
+    pure (okJson (String.ofList (JsonText.renderWith (if py then JsonText.pyDefault else JsonText.compact) j)))
+  | "jsontext.parse" =>
+    let t ← req.getObjValAs? String "text"
+    match JsonText.parse t.toList with
+    | some j => pure (okJson (jtToJson j))
+    | none => pure (Json.mkObj [("exc", "not-json")])
   | _ => .error s!"unknown op {op}"
 
 def handleLine (line : String) : Json :=
